@@ -18,7 +18,7 @@ THEOREMS = [(n, _PINS[n]) for n in ("cache_transparent", "cache_hit_same_class",
                                     "length_first_shadows_exact_refuted",
                                     "cache_transparent_reachable", "fixture_honours_contract", "fixture_cache_transparent",
                                     "override_poisons_refuted", "stream_vary_refuted", "qm_variant_refuted",
-                                    "stored_variant_keyed_by_what_it_depends_on", "qm_response_never_under_path_key")]
+                                    "stored_variant_keyed_by_what_it_depends_on", "qm_response_never_under_path_key", "qm_queryless_variant_refuted")]
 RULE = ("histories of requests/clears/waits against kvarn::handle_cache in process (harness/src/c04x.rs): (a) host with response cache vs. the Coq cache "
         "model Model/CacheX.v (component pipex.run; correspondence: status, vary / x-h / last-modified presence, decoded body, identity body, stream, "
         "handler invocation log per request), (b) host without response cache vs. the model run with cache off, (c) oracle real-vs-model: every reply "
@@ -54,7 +54,8 @@ ASSUMPTIONS = [
     "this is now a THEOREM (fixture_honours_contract / fixture_cache_transparent) for every configuration that passes wf_fixture (no counting "
     "handler, no extended switch/stream handler, path-echo handlers QueryMatters and not an internal route, tuple-echo handlers echoing the "
     "rules of their path); the extended handlers of the families random / negotiation / timed (selection by a raw header value: a function of "
-    "the transformed tuple only on the generated lower-case values) and path-echo handlers declared Full (histories without queries) satisfy it "
+    "the transformed tuple only on the generated lower-case values, the empty value and blanks; family qmvar: the preference — Full / QueryMatters — "
+    "is a function of that value too) and path-echo handlers declared Full (histories without queries) satisfy it "
     "by construction only. cache_transparent_reachable asks the contract only of the (request, override URI) pairs the Primes produce. "
     "The earlier extra hypothesis 'query-matters-ness is uniform per path' is gone: it was needed only because of the "
     "defect witnessed by qm_variant_refuted, now repaired",
@@ -104,7 +105,9 @@ LEVEL_TEXT = ("Coq theorem cache_transparent over the full cache model (streams,
               "stored_variant_keyed_by_what_it_depends_on / qm_response_never_under_path_key: after ANY history every stored variant was computed for a "
               "GET/HEAD request of that vary tuple whose looked-up URI has the path of its Path key — and is then not query-dependent — or the path and "
               "query of its PathQuery key; in particular a QueryMatters response is never held by the path-keyed entry every query falls back to, whether "
-              "or not its request carried a query (the seeded change C03-10 as a model property; fixture example c03_ex_qm_queryless_variant). Tied to the repo worktree by a differential run of the real kvarn::handle_cache against the extracted model on "
+              "or not its request carried a query (the seeded change C03-10 as a model property; fixture example c03_ex_qm_queryless_variant; qm_queryless_variant_refuted: its three-step "
+              "history — Full variant, QueryMatters variant without query, the same with a query — on the model without the key-kind guard, with which "
+              "that change coincides on query-less requests: /v?id=7 is answered with the response computed for /v). Tied to the repo worktree by a differential run of the real kvarn::handle_cache against the extracted model on "
               "generated histories, for hosts with and without the response cache, and by the real-vs-real comparison of the two hosts.")
 LEVEL_NOTE = ("Trusted: Coq kernel; extraction (sample re-checked in-kernel); hand transcription of handle_cache into Model/CacheX.v validated by the "
               "differential run; moka as a finite map; sequential histories. No axioms.")
